@@ -638,22 +638,23 @@ def c12_jobs(tier):
 SPECS["C12"] = dict(
     run=std_run, jobs=c12_jobs, post=_c12.post,
     explanation=("Argument validation decided at two levels. (a) Constructor ranges on the compiler IR (irsym): extern-C wrappers around the real constructors of SymEigsSolver, SymEigsShiftSolver, HermEigsSolver, "
-                 "GenEigsSolver, GenEigsRealShiftSolver, GenEigsComplexShiftSolver with a user-defined operator whose rows() is an argument are compiled with clang -O1; every path of the IR ends in "
+                 "GenEigsSolver, GenEigsRealShiftSolver, GenEigsComplexShiftSolver and the rvalue-operator constructor of HermEigsBase (the path of SymGEigsSolver / SymGEigsShiftSolver in all five modes) with a user-defined operator whose rows() is an argument are compiled with clang -O1; every path of the IR ends in "
                  "'throws std::invalid_argument' or 'constructed', and for ALL 64-bit (n >= 0, nev, ncv) the solver proves: a throwing path is only taken outside the documented range and a constructing path only "
                  "inside it (1 <= nev <= n-1, nev < ncv <= n; general solvers 1 <= nev <= n-2, nev+2 <= ncv <= n). (b) Source level (symx): compute() with each of the nine SortRule values as selection and as sorting "
                  "raises invalid_argument iff the rule is not supported by that solver family (symmetric incl. shift-invert and nev = 1; general incl. real-shift); init() rejects a zero and a sub-threshold "
                  "start vector before applying the operator; all ten wrappers reject non-square shapes up to 4x4; sigma == 0 is rejected in buckling and Cayley mode and only there (symbolic sigma); argsort "
                  "rejects rules undefined for real vectors. A rejected PartialSVDSolver construction leaks nothing (concrete replay of the fixed defect)."),
-    functions=["HermEigsBase / GenEigsBase lvalue constructors (via 6 solver classes, IR)", "HermEigsBase::sort_ritzpair, retrieve_ritzpair -> argsort; GenEigsBase::retrieve_ritzpair, sort_ritzpair", "Arnoldi::init zero check",
+    functions=["HermEigsBase / GenEigsBase lvalue constructors (via 6 solver classes, IR)", "HermEigsBase rvalue-operator constructor + create_op_container (IR; counterexamples replayed through the real SymGEigsSolver<RegularInverse>)", "HermEigsBase::sort_ritzpair, retrieve_ritzpair -> argsort; GenEigsBase::retrieve_ritzpair, sort_ritzpair", "Arnoldi::init zero check",
                "SymGEigsShiftSolver::set_shift_and_move", "wrapper constructors (shape checks)"],
     bounds={"constructor triples": "all 64-bit Index values with n >= 0", "rules": "9 x {selection, sorting} x 5 solver configurations", "non-square": "all r x c, r != c <= 4"},
-    outside=["the five generalized solver classes' constructors at IR level (their operator is moved into a heap container and the size is re-loaded from memory that irsym does not model; they share the second, textually "
-             "identical copy of the checks in HermEigsBase)", "DavidsonSymEigsSolver constructor (loop over n)", "PartialSVDSolver range (it forwards to SymEigsSolver)", "-0.0 vs 0.0 for sigma (exact reals)"],
+    outside=["the mode-specific part of the five generalized solver classes' constructors at IR level (they build their composite operator - with heap allocations irsym does not model - and forward (nev, ncv) "
+             "to the rvalue-operator constructor of HermEigsBase; that base constructor, the second copy of the range checks, IS decided at IR level with std::vector<Op> replaced by an inline-slot stub)",
+             "DavidsonSymEigsSolver constructor (loop over n)", "PartialSVDSolver range (it forwards to SymEigsSolver)", "-0.0 vs 0.0 for sigma (exact reals)"],
     assumptions=["std::invalid_argument's constructor and __cxa_allocate_exception do not throw (listed as opaque calls)"],
     policy=dict(events="ignore", allow_cut=False),
     technique="IR-level symbolic execution of the real constructors (all Index values) + source-level symbolic execution of rule / vector / shape / shift validation",
-    level_text="complete over all 64-bit argument triples for six solver constructors; exhaustive over the nine rules; symbolic over sigma",
-    level_note="generalized-solver constructors and Davidson not encoded at IR level; LP64",
+    level_text="complete over all 64-bit argument triples for six solver constructors and the shared rvalue-operator base constructor of the generalized solvers; exhaustive over the nine rules; symbolic over sigma",
+    level_note="mode-specific operator construction of the generalized solvers and Davidson not encoded at IR level; std::vector<Op> stubbed for the rvalue constructor; LP64",
 )
 
 
